@@ -56,22 +56,26 @@ Reset ==
   /\ pool' = [created |-> 0, free |-> 0]
   /\ mem' = 0
   /\ srvSt' = "up"
+  /\ pend' = {}
 
 (* "after close every started call has returned" *)
 AllReturned == \A id \in CallIds : call[id].pc \in {"new", "done"}
 
+(* start, cancel, cut, proxy, shutdown and close are logged by the driver's controller *)
+(* goroutine, which executes cut / proxy / shutdown synchronously: when it logs the    *)
+(* next event, those have taken effect.                                                *)
 Consume(e) ==
-  \/ e.ev = "start"    /\ Invoke(e.id, e.tmo, e.ff)
-  \/ e.ev = "cancel"   /\ CtxCancel(e.id)
+  \/ e.ev = "start"    /\ ~SyncPending /\ Invoke(e.id, e.tmo, e.ff)
+  \/ e.ev = "cancel"   /\ ~SyncPending /\ CtxCancel(e.id)
   \/ e.ev = "enter"    /\ HandlerEnter(e.id)
   \/ e.ev = "exit"     /\ HandlerExit(e.id, e.out)
   \/ e.ev = "ret"      /\ Return(e.id) /\ call'[e.id].rv = Res(e.res, e.got)
-  \/ e.ev = "close"    /\ IF e.side = "server" THEN SrvCloseBegin ELSE CliCloseBegin(e.side)
+  \/ e.ev = "close"    /\ ~SyncPending /\ IF e.side = "server" THEN SrvCloseBegin ELSE CliCloseBegin(e.side)
   \/ e.ev = "closed"   /\ IF e.side = "server" THEN SrvCloseEnd ELSE CliCloseEnd(e.side)
-  \/ e.ev = "shutdown" /\ SrvShutdown
-  \/ e.ev = "cut"      /\ Cut(e.cl)
-  \/ e.ev = "proxy"    /\ SetProxy(e.cl, e.mode)
-  \/ e.ev = "end"      /\ AllReturned /\ UNCHANGED vars
+  \/ e.ev = "shutdown" /\ ~SyncPending /\ SrvShutdown
+  \/ e.ev = "cut"      /\ ~SyncPending /\ Cut(e.cl)
+  \/ e.ev = "proxy"    /\ ~SyncPending /\ SetProxy(e.cl, e.mode)
+  \/ e.ev = "end"      /\ ~SyncPending /\ AllReturned /\ UNCHANGED vars
   \/ e.ev = "reset"    /\ Reset
 
 TraceNext ==
